@@ -13,6 +13,7 @@ namespace Orq
 inductive Expr where
   | lit (v : Val)
   | ctx (x : String)            -- `ctx(x)` / `ctx().x`
+  | ctxKey (x k : String)       -- `ctx(x).k`
   | succeeded | failed | completed
   | result
   | item                        -- `item()`
